@@ -23,6 +23,7 @@ RULE = (
     "contexts) on an empty, generated, mini or textbook model.  Non-trivial when the reference "
     "state changed or the operation raised; distinct by (operation + argument shape, abstract-"
     "state hash)."
+    " An exception raised by an operation that has no failure mode for these argument shapes (18 operations) is a violation. Second workload: the repository's tests with the cross-reference invariant evaluated at every optimize and after every outermost editing operation."  # third-session additions
 )
 ASSUMPTIONS = [
     "the reference is my reading of the docstrings; each transition quotes its sentence (cv/refmodel.py)",
